@@ -604,6 +604,7 @@ pub fn scenario(g: &GenCfg) -> BoxedStrategy<Scenario> {
                         raw_faults: vec![],
                         schedule: if free { None } else { Some(sched) },
                         db_yields: db_yields && !free,
+                        precompile_panic_at: 0,
                     }
                 })
         })
